@@ -165,7 +165,14 @@ def alphabet(full: bool):
     ops.append(("add", "m.A", "Z"))
     ops.append(("addinst", ["m.A_a"], "Z"))
     ops.append(("addinst", ["m.B_a"], "X"))
+    # names whose only dots are leading / trailing (a plugin author passing Path.suffix): rejected like any dotted name,
+    # never registered under the stripped name
+    ops.append(("addinst", [".b"], "X"))
+    ops.append(("addinst", ["a", "b."], "Y"))
+    ops.append(("add", ".a", "Z"))
     if full:
+        ops.append(("addinst", ["."], "Z"))
+        ops.append(("addinst", ["..b"], "X"))
         ops.append(("add", "m.B", "X"))
         ops.append(("addinst", ["a", "b"], "Z"))
         ops.append(("addinst", ["a", "a.b", "b"], "X"))
@@ -594,8 +601,8 @@ def public_api(ck):
                             keys = rng.sample(["a", "b", "c", "x"], rng.randint(1, 2))
                             single = len(keys) == 1 and rng.random() < 0.4
                             if rng.random() < 0.15:
-                                keys.insert(rng.randint(0, len(keys)), "a.b")
-                                single = False
+                                keys.insert(rng.randint(0, len(keys)), rng.choice(["a.b", "a.b", ".b", "c.", "..x", "."]))
+                                single = len(keys) == 1
                             elif rng.random() < 0.15:
                                 dotted = [x for x in known(full_names=True) if "." in x]
                                 if dotted:   # a dotted name the registry already knows (full name / full key)
